@@ -5,12 +5,14 @@ from sse import api
 from vh import common as C
 from vh import progs as PG
 from vh import gen as G
+from vh import lexer as LX
 
 
 def units(tier):
+    cu = PG.corpus_units(tier, "diff_prog", stds=("both",))
     if tier == "quick":
-        return PG.program_units(tier, "diff_prog", stds=("both",), ics=(True,))
-    return PG.program_units(tier, "diff_prog", stds=("both",), ics=(True, False), rotate=True)
+        return PG.program_units(tier, "diff_prog", stds=("both",), ics=(True,)) + cu
+    return PG.program_units(tier, "diff_prog", stds=("both",), ics=(True, False), rotate=True) + cu
 
 
 def meta(tier):
@@ -21,6 +23,12 @@ def meta(tier):
                 budget_s=400 if q else 2400, unit_budget_s=60 if q else 300)
 
 
+F2008_INTRINSICS = """acosh asinh atanh bessel_j0 bessel_j1 bessel_jn bessel_y0 bessel_y1 bessel_yn erf erfc erfc_scaled gamma hypot
+log_gamma norm2 parity popcnt poppar leadz trailz bge bgt ble blt dshiftl dshiftr shifta shiftl shiftr maskl maskr merge_bits iall iany
+iparity findloc storage_size is_contiguous image_index lcobound ucobound num_images this_image atomic_define atomic_ref
+execute_command_line compiler_options compiler_version c_sizeof""".split()
+
+
 def diff_prog(ctx):
     p = ctx.p
     C.reset()
@@ -29,7 +37,7 @@ def diff_prog(ctx):
         from vh.c01 import with_comments
         src = with_comments(src)
     ctx.observe("src", src)
-    f08 = G.is_f08(p["prog"])
+    f08 = G.is_f08(p["prog"]) if "prog" in p else (not p.get("c2003", True))
     r3 = C.outcome(lambda: str(C.parse(src, "f2003", p["ic"])))
     C.reset()
     r8 = C.outcome(lambda: str(C.parse(src, "f2008", p["ic"])))
@@ -45,4 +53,11 @@ def diff_prog(ctx):
         ctx.check(r8[0] == "ok", "program accepted by f2003 parser rejected by f2008 parser (" + r8[0] + ")")
         if r8[0] == "ok":
             ctx.observe("s8", r8[1])
-            ctx.check(r3[1] == r8[1], "str(parse08(P)) != str(parse03(P))")
+            a, b = r3[1], r8[1]
+            ctx.check((a.lower() == b.lower()) if len(a) == len(b) else False, "str(parse08(P)) differs from str(parse03(P)) beyond letter case")
+            uses08 = False
+            for kind, w in LX.tokens(src):
+                if kind == "w" and api.is_concrete(w) and w.lower() in F2008_INTRINSICS:
+                    uses08 = True
+            if not uses08:
+                ctx.check((a == b) if len(a) == len(b) else False, "str(parse08(P)) != str(parse03(P))")
